@@ -104,3 +104,18 @@ Example C06_nonvacuous_reuse :
   | _ => False
   end.
 Proof. vm_compute. repeat split; reflexivity. Qed.
+
+(** AT BYTE LEVEL (Io_bounded.v): the lengths of the key and value FILES that the I/O of the map
+    layer produces (the flat files of [Io], compared with the real files byte for byte) obey the
+    same bound: after any history they are at most [bound (length at the start) P L], with [P] the
+    peak number of live entries and [L] the size limit - whatever the length of the history *)
+From Aby Require Import Layout Load Load_all Io Io_base Io_htx Io_run Io_bounded.
+Theorem C06_byte_level_file_size_bounded : forall s sp m ops s' outs P L,
+  wf_state s -> represents s sp -> simg s m -> Forall (op_wf (kt s)) ops -> sized s ops ->
+  store_run s ops = Ok (s', outs) ->
+  (peak_live sp ops <= P)%nat ->
+  (forall k v, sp !! k = Some v -> blen k < L) -> Forall (op_short L) ops ->
+  exists m', io_run m ops = Ok (m', outs) /\
+    Io.fend (Io.s_key (Io.m_st m')) <= bound (Io.fend (Io.s_key (Io.m_st m))) P L /\
+    Io.fend (Io.s_val (Io.m_st m')) <= bound (Io.fend (Io.s_val (Io.m_st m))) P L.
+Proof. exact byte_level_file_size_bounded. Qed.
